@@ -28,6 +28,9 @@ type c07Plan struct {
 	I    int64   `json:"i,omitempty"`
 	F    []int64 `json:"f,omitempty"`
 	S    string  `json:"s,omitempty"`
+	// SHex: the string's bytes when they are not well-formed UTF-8 (a Go string is an arbitrary byte sequence: Latin-1
+	// bytes cast to string, a string cut inside a multi-byte character); overrides S
+	SHex string `json:"s_hex,omitempty"`
 }
 
 func typeByName(name string) (typeInfo, bool) {
@@ -324,10 +327,16 @@ func c07Run(p c07Plan) *common.Fail {
 	case "fields":
 		return c07Fields(ti, a, b, p.F)
 	case "string":
-		if ti.Kind != reflect.String || !utf8.ValidString(p.S) {
+		str := p.S
+		if p.SHex != "" {
+			str = string(unhx(p.SHex))
+		}
+		// ill-formed byte strings are judged for the variable-length type only, whose wire format carries the string's
+		// bytes as they are (for 16.xxx the per-character replacement of such bytes is not prescribed)
+		if ti.Kind != reflect.String || (!utf8.ValidString(str) && ti.Main != 28) {
 			return nil
 		}
-		return c07String(ti, a, b, p.S)
+		return c07String(ti, a, b, str)
 	}
 	return nil
 }
@@ -695,6 +704,13 @@ func TestC07(t *testing.T) {
 				rs[i] = rune(runeGen.Draw(rt, "r"))
 			}
 			plan = c07Plan{Type: ti.Name, Mode: "string", S: string(rs)}
+			if ti.Main == 28 && rapid.IntRange(0, 2).Draw(rt, "raw-bytes") == 0 {
+				raw := make([]byte, rapid.IntRange(1, 24).Draw(rt, "raw-len"))
+				for i := range raw {
+					raw[i] = rapid.SampledFrom([]byte{0x41, 0x7a, 0x80, 0xbf, 0xc0, 0xc3, 0xe9, 0xed, 0xa0, 0xf5, 0xff}).Draw(rt, "raw-byte")
+				}
+				plan.S, plan.SHex = "", hx(raw)
+			}
 			rec.Class("rapid-string")
 			if n > 14 {
 				rec.Class("rapid-string-over-14")
